@@ -1268,11 +1268,23 @@ def len_of_value(v, an):
             return len_of_value(args[0], an)
         if key == "core::mem::manually_drop::ManuallyDrop::new" and args:
             return len_of_value(args[0], an)
-        if key == "core::iter::traits::iterator::Iterator::collect" and args:
+        if key == "core::iter::traits::iterator::Iterator::collect" and args and _collects_into_vec(targs):
             return count_of_iter(args[0], an)
     if v[0] == "setlen":
         return v[2]
+    if v[0] == "site" and v[2] == "core::iter::traits::iterator::Iterator::collect":
+        # collect() of an iterator whose closures are not provably pure: the number of items is still known
+        for ev in an.ev_by_block.get(v[1], ()):
+            if ev["k"] == "call" and ev["key"] == v[2] and ev["args"] and \
+                    _collects_into_vec(tuple(x["s"] for x in ev["fn"].get("targs", []))):
+                return count_of_iter(ev["args"][0], an)
     return None
+
+
+def _collects_into_vec(targs):
+    """collect() keeps one element per item only for sequence targets (a set or map may merge items)"""
+    return any(isinstance(t, str) and (t.startswith("std::vec::Vec<") or t.startswith("std::collections::VecDeque<")
+                                       or t.startswith("std::boxed::Box<[")) for t in targs[1:])
 
 
 def count_of_iter(d, an):
@@ -1355,6 +1367,9 @@ def _subst(an, t, raw_args, cur):
         return mk_bin(t[1], _subst(an, t[2], raw_args, cur), _subst(an, t[3], raw_args, cur))
     if k == "const" or k == "constx" or k == "fnref":
         return t
+    if k == "field" and len(t) == 3:
+        inner = _subst(an, t[1], raw_args, cur)
+        return mk_field(inner, t[2], int(t[2]) if str(t[2]).isdigit() else 0)
     return tuple(_subst(an, x, raw_args, cur) if isinstance(x, tuple) else x for x in t)
 
 
